@@ -432,6 +432,10 @@ func (fc *funcContext) translateExpr(expr ast.Expr) *expression {
 							// Arithmetic shift fills with the sign bit.
 							return fc.fixNumber(fc.formatExpr("%e >> 31", e.X), basic)
 						}
+						if analysis.HasSideEffect(e.X, fc.pkgCtx.Info.Info) {
+							// The shifted operand is evaluated even though the result is known.
+							return fc.formatExpr("(%e, 0)", e.X)
+						}
 						return fc.formatExpr("0")
 					}
 					return fc.fixNumber(fc.formatExpr("%e %s %s", e.X, op, strconv.FormatUint(i, 10)), basic)
@@ -440,6 +444,12 @@ func (fc *funcContext) translateExpr(expr ast.Expr) *expression {
 					return fc.fixNumber(fc.formatParenExpr("%e >> $min(%f, 31)", e.X, e.Y), basic)
 				}
 				y := fc.newLocalVariable("y")
+				if analysis.HasSideEffect(e.X, fc.pkgCtx.Info.Info) {
+					// The shifted operand is evaluated first, and also when the count is
+					// too large for it to matter.
+					x := fc.newLocalVariable("x")
+					return fc.fixNumber(fc.formatExpr("(%s = %e, %s = %f, %s < 32 ? (%s %s %s) : 0)", x, e.X, y, e.Y, y, x, op, y), basic)
+				}
 				return fc.fixNumber(fc.formatExpr("(%s = %f, %s < 32 ? (%e %s %s) : 0)", y, e.Y, y, e.X, op, y), basic)
 			case token.AND, token.OR:
 				if isUnsigned(basic) {
